@@ -253,7 +253,7 @@ def open_findings(prop):
 
 # ---------------------------------------------------------------------------------------------- opfuzz part
 
-ASAN_ENV = {"ASAN_OPTIONS": "detect_leaks=0:abort_on_error=0:allocator_may_return_null=1:handle_abort=0:handle_sigill=0:detect_stack_use_after_return=0:symbolize=1",
+ASAN_ENV = {"ASAN_OPTIONS": "alloc_dealloc_mismatch=0:detect_leaks=0:abort_on_error=0:allocator_may_return_null=1:handle_abort=0:handle_sigill=0:detect_stack_use_after_return=0:symbolize=1",
             "UBSAN_OPTIONS": "print_stacktrace=1:halt_on_error=1"}
 
 
@@ -447,9 +447,102 @@ def run_opfuzz(prop, part, binary, cfg, seed, tier, excludes, extra_args=()):
     return res
 
 
+# ---------------------------------------------------------------------------------------------- libFuzzer part
+
+def lf_run_file(binary, path, timeout=70, extra_env=None):
+    """Run the fuzz target on one saved input. Returns (failed, kind, output)."""
+    try:
+        r = subprocess.run([binary, "-timeout=60", "-rss_limit_mb=4096", path], stdout=subprocess.PIPE, stderr=subprocess.STDOUT, text=True, errors="replace",
+                           timeout=timeout, env=env_with(extra_env), cwd=os.path.dirname(path) or ".")
+    except subprocess.TimeoutExpired:
+        return True, "hang", "timeout after %ds" % timeout
+    if r.returncode == 0:
+        return False, "", r.stdout
+    out = r.stdout
+    kind = "crash"
+    m = re.search(r"ORACLE: ([^\n]*)", out)
+    if m:
+        kind = "oracle:" + m.group(1)[:100]
+    else:
+        m = re.search(r"(ERROR: AddressSanitizer: [a-zA-Z-]+|runtime error: [^\n]{0,80}|ERROR: libFuzzer: [a-z- ]+)", out)
+        if m:
+            kind = "crash:" + m.group(1)
+    return True, kind, out
+
+
+def run_libfuzzer(prop, part, binary, cfg, seed, tier):
+    W = min(cfg.get("workers", 8 if tier == "quick" else 16), NCPU)
+    runs = cfg["runs"]
+    max_len = part.get("max_len", 512)
+    base = scratch_dir("%s-%s" % (prop, part["name"]))
+    seeds = sorted(glob.glob(os.path.join(VERIF, "corpus", prop, part["name"], "*")))
+    procs = []
+    for w in range(W):
+        d = os.path.join(base, "w%d" % w)
+        cd = os.path.join(d, "corpus")
+        os.makedirs(cd)
+        # odd workers start from the seed corpus, even workers (in the thorough tier) from an empty one
+        if not (tier == "thorough" and w % 4 == 0):
+            for sp in seeds:
+                shutil.copy(sp, cd)
+        art = os.path.join(d, "art") + "/"
+        os.makedirs(art)
+        cmd = [binary, cd, "-seed=%d" % (seed * 1000 + w + 1), "-runs=%d" % runs, "-max_len=%d" % max_len, "-timeout=10", "-rss_limit_mb=3000", "-use_value_profile=1",
+               "-artifact_prefix=" + art, "-print_final_stats=1", "-max_total_time=%d" % cfg.get("time", 600)] + list(part.get("lf_args", ()))
+        lf = open(os.path.join(d, "log.txt"), "w")
+        env = env_with({"PBT_STATS": os.path.join(d, "stats.json")})
+        procs.append((w, d, subprocess.Popen(cmd, stdout=lf, stderr=subprocess.STDOUT, env=env, cwd=d), lf))
+    res = {"execs": 0, "nontrivial": 0, "hashes": set(), "labels": {}, "samples": [], "artifacts": [], "cov": 0, "corpus": 0, "workdir": base, "workers": W, "logs": []}
+    for w, d, p, lf in procs:
+        rc = p.wait()
+        lf.close()
+        with open(os.path.join(d, "log.txt"), errors="replace") as f:
+            lg = f.read()
+        m = re.search(r"stat::number_of_executed_units:\s*(\d+)", lg)
+        if m:
+            res["execs"] += int(m.group(1))
+        covs = re.findall(r"cov: (\d+)", lg)
+        if covs:
+            res["cov"] = max(res["cov"], int(covs[-1]))
+        res["corpus"] += len(os.listdir(os.path.join(d, "corpus")))
+        sp = os.path.join(d, "stats.json")
+        if os.path.exists(sp):
+            try:
+                with open(sp) as f:
+                    st = json.load(f)
+                if not m:
+                    res["execs"] += st.get("execs", 0)
+                for k, v in st.get("labels", {}).items():
+                    res["labels"][k] = res["labels"].get(k, 0) + v
+                res["hashes"].update(st.get("hashes", []))
+                if len(res["samples"]) < 4:
+                    res["samples"] += st.get("samples", [])[:2]
+            except ValueError:
+                pass
+        for a in sorted(os.listdir(os.path.join(d, "art"))):
+            res["artifacts"].append((os.path.join(d, "art", a), lg[-5000:]))
+        if rc != 0 and not os.listdir(os.path.join(d, "art")):
+            res["logs"].append("worker %d exited with %d and no artifact:\n%s" % (w, rc, lg[-3000:]))
+    return res
+
+
+def minimize_artifact(binary, path, workdir):
+    out = os.path.join(workdir, "min-" + os.path.basename(path))
+    try:
+        subprocess.run([binary, "-minimize_crash=1", "-runs=20000", "-max_total_time=60", "-exact_artifact_path=" + out, path], stdout=subprocess.PIPE, stderr=subprocess.STDOUT,
+                       timeout=120, env=env_with(), cwd=workdir)
+    except subprocess.TimeoutExpired:
+        pass
+    if os.path.exists(out) and os.path.getsize(out) <= os.path.getsize(path):
+        return out
+    return path
+
+
 # ---------------------------------------------------------------------------------------------- check driver
 
 def part_binary(prop, part):
+    if part["kind"] == "libfuzzer":
+        return build_bin(part.get("bin", "%s_%s" % (prop, part["name"])), part["sources"], "fuzz", part.get("cflags", ()), part.get("ldflags", ()), deps=part.get("deps", ()))
     return build_bin(part.get("bin", "%s_%s" % (prop, part["name"])), part["sources"], part.get("flavour", "asan"), part.get("cflags", ()), part.get("ldflags", ()), deps=part.get("deps", ()))
 
 
@@ -503,7 +596,7 @@ def check(prop, tier):
     # build everything this check needs up front, in parallel
     try:
         with ThreadPoolExecutor(8) as ex:
-            list(ex.map(lambda p: part_binary(prop, p), [p for p in spec["parts"] if p["kind"] == "opfuzz"]))
+            list(ex.map(lambda p: part_binary(prop, p), [p for p in spec["parts"] if p["kind"] in ("opfuzz", "libfuzzer")]))
     except BuildError as e:
         print("BUILD-ERROR property=%s" % prop)
         print(str(e)[-8000:])
@@ -519,7 +612,7 @@ def check(prop, tier):
             continue
         pt0 = time.time()
         try:
-            if kind == "opfuzz":
+            if kind in ("opfuzz", "libfuzzer"):
                 binary = part_binary(prop, part)
             elif kind == "custom":
                 binary = None
@@ -542,6 +635,77 @@ def check(prop, tier):
                 violations.append((pname, v["path"], v.get("kind", "")))
             known_lines += r.get("known", [])
             inconclusive += r.get("inconclusive", [])
+            continue
+
+        if kind == "libfuzzer":
+            wd = scratch_dir("%s-%s-replay" % (prop, pname))
+            nreg = 0
+            for rp in sorted(glob.glob(os.path.join(VERIF, "regress", prop, pname + "-*"))):
+                failed, k, out = lf_run_file(binary, rp)
+                nreg += 1
+                if failed:
+                    violations.append((pname, rp, k))
+            for fd in findings:
+                if fd.get("part") != pname:
+                    continue
+                failed, k, out = lf_run_file(binary, os.path.join(VERIF, fd["witness"]), extra_env={"PBT_EXCLUDE": ""})
+                if failed:
+                    known_lines.append("KNOWN-FINDING: property=%s %s [%s]" % (prop, fd["what"], fd["id"]))
+            os.environ["PBT_EXCLUDE"] = ",".join(excludes)
+            res = run_libfuzzer(prop, part, binary, cfg, seed, tier)
+            detail = {"engine": "libFuzzer", "executions": res["execs"], "coverage_edges": res["cov"], "corpus_files": res["corpus"], "labels": res["labels"],
+                      "distinct_nontrivial": len(res["hashes"]), "regress_files_replayed": nreg, "workers": res["workers"], "excluded_patterns": excludes}
+            coverage["evaluations"] += res["execs"]
+            coverage["distinct_nontrivial"] += len(res["hashes"])
+            coverage["samples"] += [{"part": pname, "input": smp} for smp in res["samples"][:3]]
+            if res["execs"] < cfg["runs"] * res["workers"] // 10:
+                coverage.setdefault("too_few", []).append("%s: only %d executions" % (pname, res["execs"]))
+            for lgs in res["logs"]:
+                inconclusive.append("%s: %s" % (pname, lgs[:300]))
+                log(lgs)
+            seen = set()
+            for apath, lg in res["artifacts"]:
+                base = os.path.basename(apath)
+                if base.startswith(("crash-", "leak-")):
+                    failed, k, out = lf_run_file(binary, apath)
+                    if not failed:
+                        inconclusive.append("%s: artifact %s does not reproduce" % (pname, base))
+                        continue
+                    if kind_class(k) + k in seen:
+                        continue
+                    seen.add(kind_class(k) + k)
+                    small = minimize_artifact(binary, apath, wd)
+                    oks = [lf_run_file(binary, small) for _ in range(3)]
+                    if not all(o[0] for o in oks):
+                        small = apath
+                        oks = [lf_run_file(binary, small) for _ in range(3)]
+                        if not all(o[0] for o in oks):
+                            inconclusive.append("%s: artifact %s fails only sometimes" % (pname, base))
+                            continue
+                    dd = os.path.join(OUTDIR, "failures", prop)
+                    os.makedirs(dd, exist_ok=True)
+                    with open(small, "rb") as f:
+                        data = f.read()
+                    dest = os.path.join(dd, "%s-crash-%s" % (pname, hashlib.sha1(data).hexdigest()[:10]))
+                    with open(dest, "wb") as f:
+                        f.write(data)
+                    violations.append((pname, dest, oks[0][1]))
+                    log(oks[0][2][-2500:])
+                else:
+                    # timeout-/oom-/slow-unit-: load noise unless it deterministically never finishes on a small input
+                    if base.startswith("timeout-") and os.path.getsize(apath) <= 4096:
+                        if all(lf_run_file(binary, apath, timeout=70)[1] in ("hang",) or "timeout" in lf_run_file(binary, apath, timeout=70)[2][-400:] for _ in range(2)):
+                            dd = os.path.join(OUTDIR, "failures", prop)
+                            os.makedirs(dd, exist_ok=True)
+                            dest = os.path.join(dd, "%s-hang-%s" % (pname, sha(open(apath, "rb").read())[:10]))
+                            shutil.copy(apath, dest)
+                            violations.append((pname, dest, "hang"))
+                            continue
+                    inconclusive.append("%s: %s (load noise, not a violation)" % (pname, base))
+            detail["wall_s"] = round(time.time() - pt0, 2)
+            coverage["parts"][pname] = detail
+            shutil.rmtree(wd, ignore_errors=True)
+            shutil.rmtree(res["workdir"], ignore_errors=True)
             continue
 
         wd = scratch_dir("%s-%s-replay" % (prop, pname))
@@ -577,8 +741,8 @@ def check(prop, tier):
         coverage["distinct_nontrivial"] += len(res["hashes"])
         coverage["samples"] += [{"part": pname, "labels": s["labels"], "case": s["case"]} for s in res["samples"][:3]]
         min_cases = cfg.get("min_cases", cfg["cases"] // 4)
-        if not res["failures"] and res["cases"] < min_cases:
-            inconclusive.append("%s: only %d of %d cases ran before the time cap" % (pname, res["cases"], cfg["cases"]))
+        if res["cases"] < min_cases:
+            coverage.setdefault("too_few", []).append("%s: only %d of %d cases ran" % (pname, res["cases"], cfg["cases"]))
         # ---- failures: shrink, confirm, report
         seen_kinds = set()
         for fl in res["failures"]:
@@ -651,6 +815,9 @@ def check(prop, tier):
     if inconclusive:
         for i in inconclusive:
             log("[inconclusive] " + i)
+    if coverage.get("too_few"):
+        print("INCONCLUSIVE property=%s: %s" % (prop, "; ".join(coverage["too_few"])))
+        return 2
     print("OK property=%s tier=%s evaluations=%d distinct_nontrivial=%d wall=%.1fs" % (prop, tier, coverage["evaluations"], coverage["distinct_nontrivial"], wall))
     return 0
 
@@ -688,6 +855,14 @@ def replay(path):
                     print("VIOLATION property=%s replay=%s" % (prop, path))
                     return 1
                 return 0
+            elif p["kind"] == "libfuzzer":
+                binary = part_binary(prop, p)
+                failed, k, out = lf_run_file(binary, os.path.abspath(path))
+                print(out[-6000:])
+                if failed:
+                    print("VIOLATION property=%s replay=%s" % (prop, path))
+                    return 1
+                return 0
             else:
                 mod = __import__(p["module"])
                 return mod.replay(prop=prop, part=p, path=path, api=sys.modules[__name__])
@@ -702,13 +877,13 @@ def setup():
     flav = set()
     for pid, spec in props.PROPS.items():
         for part in spec["parts"]:
-            flav.add(part.get("flavour", "asan"))
+            flav.add("fuzz" if part["kind"] == "libfuzzer" else part.get("flavour", "asan"))
     for fl in sorted(flav):
         build_lib(fl)
     jobs = []
     for pid, spec in props.PROPS.items():
         for part in spec["parts"]:
-            if part["kind"] == "opfuzz":
+            if part["kind"] in ("opfuzz", "libfuzzer"):
                 jobs.append((pid, part))
             elif part["kind"] == "custom":
                 mod = __import__(part["module"])
